@@ -412,6 +412,10 @@ type SelfTestReport struct {
 	Skipped  int      `json:"mutants_skipped"`
 	Missed   int      `json:"mutants_missed"`
 	Names    []string `json:"mutants"`
+	// behaviour-preserving edits (benign/*.diff): every rule of the property has to stay silent on them
+	BenignRun    int      `json:"benign_run"`
+	BenignSilent int      `json:"benign_silent"`
+	BenignAlarms []string `json:"benign_false_alarms,omitempty"`
 }
 
 func (res *Result) WriteEvidence() error {
